@@ -1,7 +1,7 @@
 /-
 C13 for the C text as it is now: the theorems of Props/C13.lean restated for the Lean definitions GENERATED from
 libscpi/src/lexer.c on every run (Gen/LexerC.lean, translate/c2lean_lexer.py), transferred through the refinement theorems
-of Lemmas/LexerC.lean and Lemmas/LexerCTok.lean.  Only theorems and examples here.
+of Lemmas/LexerC.lean, Lemmas/LexerCTok.lean and Lemmas/LexerCTok2.lean.  Only theorems and examples here.
 
 Reading guide.  `st buf pos` is the C state `{buffer, pos = buffer + pos, len = buf.length}` with both flags clear; the
 generated function returns the new state, the token structure (`tk t`: enum value, offset, length) and the C return value.
@@ -13,7 +13,7 @@ Because the generated text keeps `!iseos(state)` and the read apart and evaluate
 family is a theorem about the check-then-read pairs of the C source, which the hand model cannot express (Props/C01.lean).
 -/
 import ScpiVerif.Props.C13
-import ScpiVerif.Lemmas.LexerCTok
+import ScpiVerif.Lemmas.LexerCTok2
 
 namespace ScpiVerif.Props.C13Gen
 open ScpiVerif ScpiVerif.Lexer ScpiVerif.Spec ScpiVerif.Gen.LexerC ScpiVerif.Lemmas.LexerC
@@ -133,6 +133,13 @@ theorem c_lex_nondecimal_no_oob (buf : Bytes) (pos : Nat) (tok : CTok) :
     (scpiLex_NondecimalNumericData (st buf pos) tok).1.oob = false ∧ (scpiLex_NondecimalNumericData (st buf pos) tok).1.ub = false := by
   rw [scpiLex_NondecimalNumericData_ref]; exact ⟨rfl, rfl⟩
 
+theorem c_lex_suffix (buf : Bytes) (pos : Nat) (h : pos ≤ buf.length) (tok : CTok) :
+    scpiLex_SuffixProgramData (st buf pos) tok = res buf (lexSuffix buf pos) ∧ Agrees .suffix buf pos (lexSuffix buf pos) :=
+  ⟨scpiLex_SuffixProgramData_ref buf pos tok, Props.C13.suffix_spec buf pos h⟩
+theorem c_lex_suffix_no_oob (buf : Bytes) (pos : Nat) (tok : CTok) :
+    (scpiLex_SuffixProgramData (st buf pos) tok).1.oob = false ∧ (scpiLex_SuffixProgramData (st buf pos) tok).1.ub = false := by
+  rw [scpiLex_SuffixProgramData_ref]; exact ⟨rfl, rfl⟩
+
 /-! ### kernel-evaluated examples on the generated text -/
 
 -- "1.5E+3 V;" (9 bytes) at offset 0: the number is 6 bytes long, the cursor stops before the space, nothing read outside
@@ -153,5 +160,8 @@ example : scpiLex_NewLine (st [13, 10] 0) ⟨0, 0, 0⟩ = (st [13, 10] 2, ⟨5, 
 example : scpiLex_CharacterProgramData (st [97, 98, 95, 49, 32] 0) ⟨0, 0, 0⟩ = (st [97, 98, 95, 49, 32] 4, ⟨9, 0, 4⟩, 4) := by decide +kernel
 -- a byte >= 0x80 is a negative plain char: not white space, not a digit, and `(uint8_t)` maps it to 128..255 for <ctype.h>
 example : scpiLex_CharacterProgramData (st [200, 97] 0) ⟨0, 0, 0⟩ = (st [200, 97] 0, ⟨26, 0, 0⟩, 0) := by decide +kernel
+-- "1.5 V/" at offset 4: the buffer ends right after the '/', inside the suffix; the loop `while (skipSlashDot(state))` takes the
+-- '/', the three skips after it stop at the end of the input without reading, the next `skipSlashDot` too
+example : scpiLex_SuffixProgramData (st [49, 46, 53, 32, 86, 47] 4) ⟨0, 0, 0⟩ = (st [49, 46, 53, 32, 86, 47] 6, ⟨12, 4, 2⟩, 2) := by decide +kernel
 
 end ScpiVerif.Props.C13Gen
